@@ -37,6 +37,9 @@ MUTANTS = [
     ("rename-before-write", "C11", "xyzpy/gen/cropping.py",
      '        with open(tmp_fname, "wb") as file:\n            pickle.dump(obj, file)\n        os.replace(tmp_fname, fname)',
      '        with open(tmp_fname, "wb") as file:\n            os.replace(tmp_fname, fname)\n            pickle.dump(obj, file)'),
+    ("replace-before-flush", "C11", "xyzpy/gen/cropping.py",
+     '        with open(tmp_fname, "wb") as file:\n            pickle.dump(obj, file)\n        os.replace(tmp_fname, fname)',
+     '        with open(tmp_fname, "wb") as file:\n            pickle.dump(obj, file)\n            os.fsync(file.fileno())\n            os.replace(tmp_fname, fname)'),
     ("constants-dropped-when-shuffled", "C01", "xyzpy/gen/combo_runner.py",
      "            kws.update(constants)\n",
      "            kws.update(constants if not (shuffle and len(combo_values) > 2) else {})\n"),
